@@ -336,7 +336,7 @@ func (st *Runtime) executeLetList(set *SetNode) {
 	}
 }
 
-func (st *Runtime) executeYieldBlock(block *BlockNode, blockParam, yieldParam *BlockParameterList, expression Expression, content *ListNode) {
+func (st *Runtime) executeYieldBlock(caller Node, block *BlockNode, blockParam, yieldParam *BlockParameterList, expression Expression, content *ListNode) {
 
 	needNewScope := len(blockParam.List) > 0 || len(yieldParam.List) > 0
 	if needNewScope {
@@ -345,7 +345,7 @@ func (st *Runtime) executeYieldBlock(block *BlockNode, blockParam, yieldParam *B
 			p := &yieldParam.List[i]
 
 			if p.Expression == nil {
-				block.errorf("missing name for block parameter '%s'", blockParam.List[i].Identifier)
+				caller.errorf("missing value for block parameter '%s' of block %q", p.Identifier, block.Name)
 			}
 
 			st.variables[p.Identifier] = st.evalPrimaryExpressionGroup(p.Expression)
@@ -547,7 +547,7 @@ func (st *Runtime) executeList(list *ListNode) (returnValue reflect.Value) {
 				if has == false || block == nil {
 					node.errorf("unresolved block %q!!", node.Name)
 				}
-				st.executeYieldBlock(block, block.Parameters, node.Parameters, node.Expression, node.Content)
+				st.executeYieldBlock(node, block, block.Parameters, node.Parameters, node.Expression, node.Content)
 			}
 		case NodeBlock:
 			node := node.(*BlockNode)
@@ -555,7 +555,7 @@ func (st *Runtime) executeList(list *ListNode) (returnValue reflect.Value) {
 			if has == false {
 				block = node
 			}
-			st.executeYieldBlock(block, block.Parameters, block.Parameters, block.Expression, block.Content)
+			st.executeYieldBlock(node, block, block.Parameters, block.Parameters, block.Expression, block.Content)
 		case NodeInclude:
 			node := node.(*IncludeNode)
 			returnValue = st.executeInclude(node)
